@@ -181,19 +181,20 @@ def parseEntries (ws : List String) : Option Disk :=
 structure RunSt where
   st : State := ⟨[], .uninit⟩
   live : Bool := false
+  fixed : Bool := false   -- `run-fixed`: the model of the PROPOSED fix (for checking a patched tree)
 
 def fmtMid (names : List String) (mid : List Engine) : String :=
   if mid.isEmpty then "%e" else ";".intercalate (mid.map (fmtProbe names))
 
 def runStep (s : RunSt) (line : String) : RunSt × String :=
   match words line with
-  | ["case", id] => ({}, s!"case {id}")
+  | ["case", id] => ({ fixed := s.fixed }, s!"case {id}")
   | "init" :: ws =>
     match parseEntries ws with
     | none => ({ s with live := false }, "bad-op")
     | some d =>
       let r := reload (mkEnv none []) 1 false d .uninit []
-      if r.ok then ({ st := ⟨d, r.engine⟩, live := true }, "ok")
+      if r.ok then ({ s with st := ⟨d, r.engine⟩, live := true }, "ok")
       else ({ s with live := false }, "err:load")
   | ["ls"] => if s.live then (s, fmtDisk s.st.disk) else (s, "skip")
   | ["probe", names] => if s.live then (s, fmtProbe (probeNames names) s.st.engine) else (s, "skip")
@@ -202,7 +203,11 @@ def runStep (s : RunSt) (line : String) : RunSt × String :=
     | none => (s, "bad-op")
     | some p =>
       if !s.live then (s, "skip") else
-      let r := handle (mkEnv p.fault p.corder) s.st p.req
+      let r := if s.fixed then
+                 (match p.req.ep with
+                  | .configuration => handleConfigurationFixed (mkEnv p.fault p.corder) s.st p.req
+                  | .applyFlows => handleApplyFlowsFixed (mkEnv p.fault p.corder) s.st p.req)
+               else handle (mkEnv p.fault p.corder) s.st p.req
       ({ s with st := r.state },
        s!"status={r.status} phase={fmtPhase r.phase} mid={fmtMid p.probes r.mid}")
   | _ => (s, "bad-op")
@@ -294,5 +299,6 @@ def judgeFinish (s : JudgeSt) : String :=
 def main (args : List String) : IO Unit :=
   match args with
   | ["run"] => runLoop runStep {}
+  | ["run-fixed"] => runLoop runStep { fixed := true }
   | ["judge"] => judgeLoop ({} : JudgeSt) judgeStep judgeFinish
-  | _ => IO.eprintln "usage: lvdriver_c08 run|judge"
+  | _ => IO.eprintln "usage: lvdriver_c08 run|run-fixed|judge"
